@@ -38,11 +38,18 @@ def configs(tier):
         yield (2, 3), extent, commons
 
 
+class Stale(Exception):
+    """the private function the obligations are generated from is not there under its name"""
+
+
 def run(tier):
     from .. import env
 
     env.import_catii()
     from catii import ccube, iindex
+
+    if not callable(getattr(ccube, "_compute_common_cells_from_marginal_diffs", None)):
+        raise Stale("ccube has no method _compute_common_cells_from_marginal_diffs")
 
     results = []
     t0 = time.time()
